@@ -17,6 +17,17 @@ func dbg(p *Prog, r *Report) {
 		h(p)
 	}
 	what := os.Getenv("DBG")
+	if strings.Contains(what, "errdrop") {
+		for _, fn := range p.ModFuncs {
+			if fn.Blocks == nil || p.IsGenerated(fn) {
+				continue
+			}
+			_, bad := droppedErrorsIn(p, fn)
+			for _, b := range bad {
+				fmt.Println("ERRDROP", FuncName(fn), p.Pos(b.Ret.Pos()), b.Why)
+			}
+		}
+	}
 	if strings.Contains(what, "storeops") {
 		for _, so := range p.StoreOps() {
 			fmt.Printf("STOREOP %-50s %-8s root=%-40s prefix=%-40s key=%s\n", FuncName(so.Fn), so.Op, so.KeyRoot, PrefixName(so.Prefix), so.Key)
